@@ -71,3 +71,25 @@ Fixpoint pyden (s:sym) (sc:scope) : res Z :=
   | SFun2 o a b => do x <- pyden a sc; do y <- pyden b sc; eval_bin o x y
   | SGroup a => pyden a sc
   end.
+
+(* ---- Shape[...]: a sequence of axes printed with " ".join ---- *)
+Inductive saxis :=
+| SAExpr (s:sym)               (* an operable axis / computed axis / plain int *)
+| SAConst (x:string) (v:Z)     (* ConstantAxis(x, v): "x=v" *)
+| SAAnon                       (* AnonymousAxis(...) or a bare Ellipsis: "..." *)
+| SAStar (x:string).           (* AnonymousAxis("x"): "*x" *)
+Definition print_axis (a:saxis) : res string :=
+  match a with
+  | SAExpr s => sprint s
+  | SAConst x v => Ok (String.append x (String "=" (string_of_Z v)))
+  | SAAnon => Ok "..."
+  | SAStar x => Ok (String "*" x)
+  end.
+Fixpoint print_axes (l:list saxis) : res (list string) :=
+  match l with [] => Ok [] | a :: r => do s <- print_axis a; do rest <- print_axes r; Ok (s :: rest) end.
+Fixpoint join_space (l:list string) : string :=
+  match l with
+  | [] => ""
+  | s :: r => match r with [] => s | _ => String.append s (String " " (join_space r)) end
+  end.
+Definition print_sshape (l:list saxis) : res string := do ss <- print_axes l; Ok (join_space ss).
